@@ -56,6 +56,8 @@ package absnfs
 //@ callassert xdrEncodeUint64#2 : [entry-cookie] {C26} arg1 == i + 1
 //@ loop 1 invariant {C26} ranged == entries && 0 <= rangeindex + 1 && rangeindex + 1 <= len(entries) && listed(entries) && !reachedLimit
 //@ loop 1 invariant {C26} entryCount == ite(rangeindex + 1 > cookie, rangeindex + 1 - cookie, 0)
+// (C14: the fixed part written before the loop - status NFS3_OK and attributes_follow TRUE - stays as written)
+//@ loop 1 invariant {C26, C14} be32(wdata[addr(buf)], 0) == 0 && be32(wdata[addr(buf)], 4) == 1
 // (the upper bound keeps the handler's own int arithmetic on buf.Len() away from overflow)
 //@ loop 1 invariant {C26} wlen[addr(buf)] >= 100 && (entryCount == 0 ==> wlen[addr(buf)] == 100) && wlen[addr(buf)] <= 8589934592 && (entryCount <= 1 || wlen[addr(buf)] + 8 <= count)
 // at the point the reply is taken from the buffer (the only buf.Bytes() of the handler):
@@ -71,6 +73,8 @@ package absnfs
 //@ callassert FileHandleMap.Allocate : [entry-handle] {C26} valof(arg1) == entries[i]
 //@ loop 1 invariant {C26} ranged == entries && 0 <= rangeindex + 1 && rangeindex + 1 <= len(entries) && listed(entries) && !reachedLimit
 //@ loop 1 invariant {C26} entryCount == ite(rangeindex + 1 > cookie, rangeindex + 1 - cookie, 0)
+// (C14: the fixed part written before the loop - status NFS3_OK and attributes_follow TRUE - stays as written)
+//@ loop 1 invariant {C26, C14} be32(wdata[addr(buf)], 0) == 0 && be32(wdata[addr(buf)], 4) == 1
 // (the upper bound keeps the handler's own int arithmetic on buf.Len() away from overflow)
 //@ loop 1 invariant {C26} wlen[addr(buf)] >= 100 && (entryCount == 0 ==> wlen[addr(buf)] == 100) && wlen[addr(buf)] <= 8589934592 && (entryCount <= 1 || wlen[addr(buf)] + 8 <= maxCount)
 // at the point the reply is taken from the buffer (the only buf.Bytes() of the handler):
